@@ -485,7 +485,7 @@ func lenFor(g *gspec, thorough bool) int {
 }
 
 func main() {
-	mode := flag.String("mode", "classic", "classic|exhaustive|random|prec")
+	mode := flag.String("mode", "classic", "classic|exhaustive|random|prec|boundary")
 	tier := flag.String("tier", "quick", "quick|thorough")
 	replay := flag.String("replay", "", "case file to re-execute")
 	flag.Parse()
@@ -517,5 +517,7 @@ func main() {
 		genRandom(w, rng.FromEnv(11), thorough)
 	case "prec":
 		genPrec(w, rng.FromEnv(1111), thorough)
+	case "boundary":
+		genBoundary(w, rng.FromEnv(11011), thorough)
 	}
 }
